@@ -101,6 +101,18 @@ func (p idleEventProbe) HandleException(ctx netty.ExceptionContext, ex netty.Exc
 	p.w.mu.Unlock()
 }
 
+// idleBoom is a read message that makes the handler behind the idle handler panic.
+type idleBoom struct{}
+
+type panicOnBoom struct{}
+
+func (panicOnBoom) HandleRead(ctx netty.InboundContext, message netty.Message) {
+	if _, ok := message.(idleBoom); ok {
+		panic("verif: downstream read handler fails")
+	}
+	ctx.HandleRead(message)
+}
+
 type panicOnInactive struct{}
 
 func (panicOnInactive) HandleInactive(ctx netty.InactiveContext, ex netty.Exception) {
@@ -165,7 +177,7 @@ func runIdleCase(c *IdleCase) *IdleResult {
 	} else {
 		h = netty.VerifReadIdleHandler(d)
 	}
-	pl.AddLast(h, idleEventProbe{w})
+	pl.AddLast(h, idleEventProbe{w}, panicOnBoom{})
 	if c.InactivePanic {
 		pl.AddLast(panicOnInactive{})
 	}
@@ -248,6 +260,23 @@ loop:
 			w.mu.Lock()
 			w.ioDone = append(w.ioDone, time.Now())
 			w.mu.Unlock()
+		case "iopanic":
+			// a read / write that passes the idle handler and then makes a later handler panic (the channel's invoke
+			// scope turns that into an exception event; the channel stays open and idle)
+			if !active {
+				res.Diverged++
+				continue
+			}
+			// (whether a message whose handling failed "passed" the handler is left open: it does not enter the
+			// one-sided "not earlier than" oracle; what is asked is that idle events keep coming afterwards)
+			func() {
+				defer func() { _ = recover() }()
+				if c.Kind == "write" {
+					pl.FireChannelWrite(12345) // no handler converts an int: the head handler panics
+				} else {
+					pl.FireChannelRead(idleBoom{})
+				}
+			}()
 		case "tick":
 			// absolute schedule: tick k ends at t0 + k*tick, so that sleep overshoot does not accumulate
 			if t0.IsZero() {
